@@ -291,7 +291,7 @@ def plan(pid: str, tier: str, seed: int) -> dict:
                 {"kind": "redeliver", "prog": p, "cases": cs, "opts": o}
                 for p in progs
                 for o in ({}, {"restart": True}, {"reset_bloom": True}, {"trust": True}, {"trust": True, "restart": True},
-                          {"trust": True, "reset_bloom": True})
+                          {"trust": True, "reset_bloom": True}, {"fault": True}, {"fault": True, "restart": True})
                 for cs in chunks([(v, a) for v in range(1, refs[p["name"]]["steps"] + 1)
                                   for a in ((0, 3) if quick else (0, 1, 2, 5, 9))], 16)],
             mc=[(n, {"AnyOrder": "TRUE", "MaxWithhold": 2, "MaxCrashes": 1}, {"depth": 45}) for n in ("chain2",)]
